@@ -213,6 +213,8 @@ class ExprBuilder:
                     e = e[2][pe[1]]
                 elif e[0] == "closure" and isinstance(pe[1], int) and pe[1] < len(e[2]):
                     e = e[2][pe[1]]          # environment field of a desugared closure = the captured operand
+                elif e[0] == "agg" and len(e) > 3 and e[3] and fname in e[3] and len(e[3]) == len(e[2]):
+                    e = e[2][list(e[3]).index(fname)]      # field of a struct literal built just before = that operand
                 else:
                     e = ("field", e, fname)
             elif pe[0] == "dc":
@@ -324,6 +326,16 @@ class ExprBuilder:
             return ("un", "Neg", args[0])
         if path in ("std::ops::Index::index", "std::ops::IndexMut::index_mut") and len(args) == 2:
             a1 = args[1]
+            # x[a..][..n]  ==  x[a..a+n]  (one spelling for the rules and for the range checks of PPA)
+            a0 = args[0]
+            if a1[0] == "agg" and str(a1[1]).endswith("RangeTo") and len(a1[2]) == 1 and a0[0] == "call" and len(a0[2]) == 2 \
+                    and a0[4] in ("std::ops::Index::index", "std::ops::IndexMut::index_mut") \
+                    and a0[2][1][0] == "agg" and str(a0[2][1][1]).endswith("RangeFrom") and len(a0[2][1][2]) == 1:
+                start = a0[2][1][2][0]
+                rng = ("agg", str(a1[1])[:-len("RangeTo")] + "Range", (start, ("bin", "Add", start, a1[2][0])))
+                if len(a1) > 3:
+                    rng = rng + (("start", "end"),) + tuple(a1[4:])
+                return ("call", best, (a0[2][0], rng), c.bestfull, path)
             if not (a1[0] == "agg" and "Range" in a1[1]) and not (a1[0] == "sym" and "RangeFull" in a1[1]) \
                     and not (a1[0] == "lit" and "Range" in str(a1[2])):
                 return ("index", args[0], a1)
